@@ -414,6 +414,78 @@ Section Sem.
            (msum (map (fun cl => exact_terms sgn (fst cl) (snd cl) rho) js)).
 End Sem.
 
+(* ---- the hypotheses of the semantic theorems, bundled ---------------------------------------- *)
+(* laws of matrix algebra (statements about the algebra, not about the code) *)
+Record alg_laws (A : alg) : Prop := {
+  (* scalars: a commutative ring containing i and an image of Q *)
+  law_Cring : ring_theory (c0 A) (c1 A) (cadd A) (cmul A) (fun x y => cadd A x (copp A y)) (copp A) eq;
+  law_qC_proper : forall p q : Q, Qeq p q -> qC A p = qC A q;
+  law_qC_add : forall p q, qC A (p + q)%Q = cadd A (qC A p) (qC A q);
+  law_qC_mul : forall p q, qC A (p * q)%Q = cmul A (qC A p) (qC A q);
+  law_qC_1 : qC A 1%Q = c1 A;
+  (* operators: an associative unital algebra over the scalars *)
+  law_madd_assoc : forall x y z, madd A x (madd A y z) = madd A (madd A x y) z;
+  law_madd_comm : forall x y, madd A x y = madd A y x;
+  law_madd_0_l : forall x, madd A (m0 A) x = x;
+  law_madd_opp_r : forall x, madd A x (mopp A x) = m0 A;
+  law_mmul_assoc : forall x y z, mmul A x (mmul A y z) = mmul A (mmul A x y) z;
+  law_mmul_1_l : forall x, mmul A (m1 A) x = x;
+  law_mmul_1_r : forall x, mmul A x (m1 A) = x;
+  law_mmul_add_l : forall x y z, mmul A x (madd A y z) = madd A (mmul A x y) (mmul A x z);
+  law_mmul_add_r : forall x y z, mmul A (madd A x y) z = madd A (mmul A x z) (mmul A y z);
+  law_smul_add_r : forall a x y, smul A a (madd A x y) = madd A (smul A a x) (smul A a y);
+  law_smul_add_l : forall a b x, smul A (cadd A a b) x = madd A (smul A a x) (smul A b x);
+  law_smul_smul : forall a b x, smul A a (smul A b x) = smul A (cmul A a b) x;
+  law_smul_1 : forall x, smul A (c1 A) x = x;
+  law_smul_mul_l : forall a x y, mmul A (smul A a x) y = smul A a (mmul A x y);
+  law_smul_mul_r : forall a x y, mmul A x (smul A a y) = smul A a (mmul A x y);
+  law_mopp_smul : forall x, mopp A x = smul A (copp A (c1 A)) x;
+  (* transpose, entrywise conjugate, adjoint *)
+  law_mT_mul : forall x y, mT A (mmul A x y) = mmul A (mT A y) (mT A x);
+  law_mT_1 : mT A (m1 A) = m1 A;
+  law_mT_invol : forall x, mT A (mT A x) = x;
+  law_mH_mul : forall x y, mH A (mmul A x y) = mmul A (mH A y) (mH A x);
+  law_mH_1 : mH A (m1 A) = m1 A;
+  law_mH_invol : forall x, mH A (mH A x) = x;
+  law_mT_conj : forall x, mT A (mconj A x) = mH A x;
+  (* trace: linear and cyclic *)
+  law_tr_add : forall x y, tr A (madd A x y) = cadd A (tr A x) (tr A y);
+  law_tr_smul : forall a x, tr A (smul A a x) = cmul A a (tr A x);
+  law_tr_cyc : forall x y, tr A (mmul A x y) = tr A (mmul A y x);
+  (* single-site operators inside the whole system (Kronecker product with identities) *)
+  law_emb_mul : forall s a b, emb A s (lmul A a b) = mmul A (emb A s a) (emb A s b);
+  law_emb_1 : forall s, emb A s (l1 A) = m1 A;
+  law_emb_T : forall s a, emb A s (lT A a) = mT A (emb A s a);
+  law_emb_conj : forall s a, emb A s (lconj A a) = mconj A (emb A s a);
+  law_emb_H : forall s a, emb A s (lH A a) = mH A (emb A s a);
+  law_emb_comm : forall s t a b, s <> t -> mmul A (emb A s a) (emb A t b) = mmul A (emb A t b) (emb A s a)
+}.
+
+(* what a Python caller guarantees by construction *)
+Definition wf_input (i : input) : Prop :=
+  (* identifiers of a TensorProduct (a dict) are distinct *)
+  (forall t, In t (h_terms i) -> NoDup (map fst (snd t))) /\
+  (forall t, In t (map deal (j_ops i)) -> NoDup (map fst (snd t))) /\
+  (* the coefficient mappings name the coefficients of the terms *)
+  (forall t, In t (h_terms i) -> In (snd (fst t)) (h_coeffs i)) /\
+  (forall t, In t (map deal (j_ops i)) -> In (snd (fst t)) (j_coeffs i)).
+
+(* the classifier flags say nothing false about the matrices they were computed from *)
+Definition sound_flags (A : alg) (hval jval : label -> aL A) (i : input) : Prop :=
+  (forall l, In (l, true) (h_conv i) -> lT A (hval l) = hval l) /\
+  (forall X fl, In (X, fl) (j_dict i) -> f_real fl = true -> lconj A (jval X) = jval X) /\
+  (forall X fl, In (X, fl) (j_dict i) -> f_herm fl = true -> lH A (jval X) = jval X) /\
+  (forall X fl, In (X, fl) (j_dict i) -> f_id fl = true -> jval X = l1 A) /\
+  (* an operator recognised as the identity is recognised as Hermitian *)
+  (forall X fl, In (X, fl) (j_dict i) -> f_id fl = true -> f_herm fl = true) /\
+  (forall e, mget e (j_sym i) = Some true -> lT A (meval A hval jval e) = meval A hval jval e).
+
+(* no label and no coefficient name is ever assigned two different values (label freshness) *)
+Definition functional_tables (A : alg) (hval jval : label -> aL A) (hcoef jcoef : cname -> aC A) (g : gen) : Prop :=
+  (forall l e e', In (l, e) (g_log g) -> In (l, e') (g_log g) -> meval A hval jval e = meval A hval jval e') /\
+  (forall c e e', In (c, e) (g_cwrites g) -> In (c, e') (g_cwrites g) ->
+     ceval A hcoef jcoef e = ceval A hcoef jcoef e').
+
 (* ============================================================================================ *)
 (* A concrete instance: 1x1 matrices over the Gaussian rationals Q(i) (pairs of canonical       *)
 (* rationals), one site, embedded by the identity.                                              *)
